@@ -48,8 +48,8 @@ theorem skel_closeChans_shape :
     closeInFlight (deferred later) runs BEFORE closeChans: `Sweep.step? true` -/
 theorem exit_defers :
     Generated.handleWsConnDefers =
-      -- (the sixth is a function literal: it stops the keepalive of the connection current at exit, F38)
-      ["cancel", "vhook", "close", "c.closeChans", "c.closeInFlight", "", "timeoutTimer.Stop", "vhook"] := by decide
+      -- (the sixth stops the keepalive of the connection current at exit — before F38: that of the first one)
+      ["cancel", "vhook", "close", "c.closeChans", "c.closeInFlight", "c.stopCurrentPings", "timeoutTimer.Stop", "vhook"] := by decide
 
 /-- tryReconnect sweeps in the same order -/
 theorem reconnect_steps :
